@@ -14,7 +14,6 @@ import (
 	"unsafe"
 
 	"golang.org/x/tools/go/ssa"
-
 )
 
 // constValue returns the value of the constant with the
@@ -959,17 +958,18 @@ func callBuiltin(caller *frame, callpos token.Pos, fn *ssa.Builtin, args []value
 		if len(args) == 1 {
 			return args[0]
 		}
+		elemSize := int64(8)
+		if sig, ok := fn.Type().(*types.Signature); ok && sig.Params().Len() > 0 {
+			if st, ok := sig.Params().At(0).Type().Underlying().(*types.Slice); ok {
+				elemSize = sizeofType(st.Elem())
+			}
+		}
 		if isStr(args[1]) {
 			// append([]byte, ...string) []byte
-			return append(args[0].([]value), strBytes(args[1])...)
+			return appendLikeGo(args[0].([]value), strBytes(args[1]), 1, false)
 		}
 		// append([]T, ...[]T) []T
-		src := args[1].([]value)
-		dst := args[0].([]value)
-		for _, e := range src {
-			dst = append(dst, copyVal(e))
-		}
-		return dst
+		return appendLikeGo(args[0].([]value), args[1].([]value), elemSize, true)
 
 	case "copy": // copy([]T, []T) int or copy([]byte, string) int
 		src := args[1]
@@ -1523,4 +1523,72 @@ func fandbits[F floaty](x, y F) F {
 		*(*uint64)(unsafe.Pointer(&x)) &= *(*uint64)(unsafe.Pointer(&y))
 	}
 	return x
+}
+
+// ---------- slice growth like the gc runtime ----------
+
+var gcSizes = types.SizesFor("gc", "amd64")
+
+func sizeofType(t types.Type) (n int64) {
+	defer func() {
+		if recover() != nil {
+			n = 8
+		}
+	}()
+	return gcSizes.Sizeof(t)
+}
+
+// size classes of the gc allocator (runtime/sizeclasses.go), up to 32 KiB
+var gcSizeClasses = []int64{0, 8, 16, 24, 32, 48, 64, 80, 96, 112, 128, 144, 160, 176, 192, 208, 224, 240, 256, 288, 320, 352, 384, 416, 448, 480, 512,
+	576, 640, 704, 768, 896, 1024, 1152, 1280, 1408, 1536, 1792, 2048, 2304, 2688, 3072, 3200, 3456, 4096, 4864, 5376, 6144, 6528, 6784, 6912, 8192, 9472,
+	9728, 10240, 10880, 12288, 13568, 14336, 16384, 18432, 19072, 20480, 21760, 24576, 27264, 28672, 32768}
+
+func gcRoundUpSize(n int64) int64 {
+	for _, c := range gcSizeClasses {
+		if c >= n {
+			return c
+		}
+	}
+	const page = 8192
+	return (n + page - 1) / page * page
+}
+
+// gcGrowCap is runtime.growslice's capacity computation (go1.20+): the capacity is not specified by
+// the language, but code that aliases a slice's spare capacity behaves as the runtime decides, and a
+// counterexample has to replay on the real runtime.
+func gcGrowCap(oldCap, newLen int, elemSize int64) int {
+	newcap := oldCap
+	doublecap := newcap + newcap
+	switch {
+	case newLen > doublecap:
+		newcap = newLen
+	case oldCap < 256:
+		newcap = doublecap
+	default:
+		for newcap < newLen {
+			newcap += (newcap + 3*256) >> 2
+		}
+	}
+	if elemSize <= 0 {
+		return newcap
+	}
+	return int(gcRoundUpSize(int64(newcap)*elemSize) / elemSize)
+}
+
+// appendLikeGo appends src to dst in place when the capacity allows, otherwise into a new backing
+// array of the capacity the gc runtime would choose for elements of elemSize bytes.
+func appendLikeGo(dst, src []value, elemSize int64, copyElems bool) []value {
+	need := len(dst) + len(src)
+	out := dst
+	if need > cap(dst) {
+		out = make([]value, len(dst), gcGrowCap(cap(dst), need, elemSize))
+		copy(out, dst)
+	}
+	for _, e := range src {
+		if copyElems {
+			e = copyVal(e)
+		}
+		out = append(out, e)
+	}
+	return out
 }
